@@ -1,8 +1,28 @@
 import Pyxv.Model.OpsForm
 import Pyxv.Model.Rows17
+import Pyxv.Model.RowLoopEnv
 /-! Driver operation for C17's repaired validation order. -/
 namespace Pyxv.Rows17
 open Lean Pyxv Pyxv.Form Pyxv.Rows
+
+/-- a typed cell: JSON string, or `[[k, v], …]` for a grouped column -/
+partial def valOfJson : Json → Except String RowLoop.Val
+  | .str s => pure (.str s.toList)
+  | .arr a => do
+    let kvs ← a.toList.mapM fun x => do
+      let p ← x.getArr?
+      if h : p.size = 2 then
+        let key ← p[0].getStr?
+        let v ← valOfJson p[1]
+        pure (key.toList, v)
+      else throw "pair expected"
+    pure (.dict kvs)
+  | _ => throw "cell expected"
+
+def trowOfJson (j : Json) : Except String RowLoop.TRow := do
+  match ← valOfJson j with
+  | .dict kvs => pure kvs
+  | .str _ => throw "row expected"
 
 def opsC17 (op : String) (j : Json) : Option (Except String Json) :=
   match op with
@@ -18,6 +38,19 @@ def opsC17 (op : String) (j : Json) : Option (Except String Json) :=
         | .tree (.base e) => Json.mkObj [("outcome", "error"), ("err", errToJson e)]
         | .tree (.emptySection n) => Json.mkObj [("outcome", "error"), ("err", Json.mkObj [("kind", "emptySection"), ("name", jstr n)])]
         | .ok => Json.mkObj [("outcome", "ok")])
+  | "c17.rowloop" => some do
+      let rows ← (← getArr j "rows").toList.mapM trowOfJson
+      let sh : RowLoop.Sheets :=
+        { choices := ← getStrList j "choices", external := ← getStrList j "external",
+          hasExternal := getBoolD j "hasExternal" false,
+          osm := (match j.getObjVal? "osm" with | .ok v => (match strList v with | .ok l => some l | _ => none) | _ => none),
+          hasEntities := getBoolD j "hasEntities" false }
+      let guard := RowLoop.sheetGuard RowLoop.stdEnv sh rows {}
+      pure (match RowLoop.sheet RowLoop.stdEnv sh rows with
+        | .ok () => Json.mkObj [("outcome", "pass"), ("guard", Json.bool guard)]
+        | .error (.reject w) => Json.mkObj [("outcome", "reject"), ("what", Json.str w), ("guard", Json.bool guard)]
+        | .error (.internal c s) =>
+          Json.mkObj [("outcome", "internal"), ("exc", Json.str c), ("site", Json.str s), ("guard", Json.bool guard)])
   | _ => none
 
 end Pyxv.Rows17
